@@ -3,7 +3,7 @@
 From Coq Require Import NArith List Bool.
 From QV.Base Require Import Res.
 From QV.Gen Require Import Consts.
-From QV.Tree Require Import TreeModel TreeLlrb QTree TreeSpec QTreeProofs.
+From QV.Tree Require Import TreeModel TreeLlrb QTree TreeSpec QTreeProofs TreeIter.
 Import ListNotations.
 Local Open Scope N_scope.
 
@@ -23,6 +23,14 @@ Theorem C01_refines : forall os, forallb is_map_op os = true ->
   exists s obs d, run kcmp (init) os = Ok (s, obs) /\ Inv kcmp s /\
     fst (srun kcmp sinit os) = (abs s, d) /\ Forall2 obs_ok obs (snd (srun kcmp sinit os)).
 Proof. intros os H. exact (run_map_refines kcmp kcmp_trans kcmp_antisym kcmp_eq_l os init false (Inv_init kcmp) H). Qed.
+
+(* the same for histories in which walks (complete or abandoned) and nearest-key searches are interleaved with the map
+   operations: they never change what the map operations observe *)
+Theorem C01_refines_any_history : forall os,
+  exists s obs d, run kcmp init os = Ok (s, obs) /\ Inv kcmp s /\
+    fst (srun kcmp sinit os) = (abs s, d) /\ Forall2 obs_ok obs (snd (srun kcmp sinit os)).
+Proof. intros os. destruct (run_init_refines kcmp kcmp_trans kcmp_antisym kcmp_eq_l os) as (s & obs & d & E & HI & _ & _ & Ha & Ho).
+  exists s, obs, d. auto. Qed.
 
 (* the clauses of the property, operation by operation, from any state satisfying the invariant *)
 Theorem C01_put : forall s k v, Inv kcmp s -> k <> [] ->
@@ -55,6 +63,7 @@ Example C01_ex : exists s obs, run byte_cmp init [Put [97;0] [1]; Put [98;0] [2]
 Proof. vm_compute. eexists; eexists; repeat split. Qed.
 
 Print Assumptions C01_refines.
+Print Assumptions C01_refines_any_history.
 Print Assumptions C01_put.
 Print Assumptions C01_get.
 Print Assumptions C01_remove.
